@@ -8,6 +8,7 @@ import (
 	"encoding/json"
 	"fmt"
 	"os"
+	"runtime"
 	"strconv"
 	"strings"
 	"time"
@@ -45,7 +46,20 @@ func Begin(w *Witness) {
 	cur = w
 	counts = map[string]int{}
 	res = &Result{ID: w.ID, Asserts: []string{}}
+	// environment choices of the engine
+	if defaultProcs == 0 {
+		defaultProcs = runtime.GOMAXPROCS(0)
+	}
+	procs := defaultProcs
+	if v, ok := w.Assignment["env:GOMAXPROCS#0"]; ok {
+		if n, err := strconv.Atoi(v); err == nil && n > 0 {
+			procs = n
+		}
+	}
+	runtime.GOMAXPROCS(procs)
 }
+
+var defaultProcs int // the engine runs package initialisers too: nothing environment-dependent may happen there
 
 // End returns what the replay observed.
 func End() *Result { return res }
